@@ -37,6 +37,13 @@ claim("C04", "proof", "value-set dataflow over every acyclic path of the encoder
       "For every (ISA row, operand kind) group the union of the operand value sets that reach an Ok return must be contained in the row's legal set; an Ok path with operand kinds no ISA form has, or one that does not pin the operand count, is a violation. Operand symbols range over all of i64, so negative and absurd values are covered; the ~40 guards are each a branch the exploration must take.",
       "Trusted: rustc MIR, spec/avr_isa.json, E1 value-set refinement. Expr::run opaque.", engine="E0+E1")
 
+claim("C12", "proof", "table evaluation from the MIR of the DEVICES initialiser vs. vendor part files; normalised linear path facts of the limit check (abstract interpretation)",
+      "All 54 device rows are read out of the initialiser's MIR and each of the 49 rows that has a shipped part-definition file is compared on its four memory figures; the three capacity comparisons, their units and the device they use are recovered as linear facts on the success path of build_from_parsed and must be exactly len(code) <= 2*flash_size, len(eeprom) <= eeprom_size, ram_filling <= ram_size with the device read after pass 2; reported sizes and the documented defaults are constants/flows checked on the same MIR. 'Exactly at capacity builds, one more fails' follows from the facts for every device at once.",
+      "Assumes image lengths < 2^32 (as-u32 casts); that the three usages are what the programs really need is C02. Trusted: rustc MIR, includes/*def.inc as oracle.", engine="E0+E1")
+claim("C13", "proof", "exhaustive gate-table extraction by abstract interpretation of Device::check_operation (symbolic flag set) and of the encoder, compared with an independent feature table; dominance in pass 2",
+      "For each of the 81 operations the gate's result is obtained as a boolean function of the 16 feature flags and compared on every assignment of the flags involved with the reference table; form-specific flags (X/Y pointer, lpm/elpm Rd,Z) must appear as required path facts on every successful encoder path of the removed forms and on no other form; the gate dominates the encoder call in pass 2 and the encoder's bytes depend on the device only through the one-word lds/sts selection.",
+      "Trusted: rustc MIR, spec/avr_features.json, E1. Flags per device are taken from the table as given (C13 quantifies over the table).", engine="E0+E1+E3")
+
 ENGINES = [
     {"name": "E0 fact driver", "path": "driver/", "serves_properties": sorted(P), "kind_free_text": "rustc_private driver (RUSTC_WORKSPACE_WRAPPER) dumping callee-resolved MIR, ADT/static/impl tables of /repo's two crates as JSON"},
     {"name": "E1 abstract interpreter", "path": "analysis/absint.py", "serves_properties": ["C01", "C02", "C03", "C04", "C05", "C06", "C08", "C12", "C13"], "kind_free_text": "path-sensitive abstract interpretation of MIR: named unknowns, value sets, bit provenance, linear forms; no solver, no execution of /repo"},
